@@ -97,10 +97,10 @@ def variant_dir(variant):
         if os.path.exists(os.path.join(d, "libninja.a")):
             os.utime(d)
             return d
-        # remove stale dirs of this variant
-        for old in glob.glob(os.path.join(BUILD, variant + "-*")):
-            if old != d:
-                shutil.rmtree(old, ignore_errors=True)
+        # bound disk use: keep the two most recently used builds of this variant besides the new one
+        olds = sorted([o for o in glob.glob(os.path.join(BUILD, variant + "-*")) if o != d], key=os.path.getmtime, reverse=True)
+        for old in olds[2:]:
+            shutil.rmtree(old, ignore_errors=True)
         os.makedirs(os.path.join(d, "obj"), exist_ok=True)
         v = VARIANTS[variant]
         srcs = lib_sources()
